@@ -51,6 +51,9 @@ type Unit struct {
 	closureN int
 	closures map[string]*ClosureV
 	specErrs []string
+	measure0 *Term
+	relevant map[string]bool // nil = every family; else families worth copying in struct appends
+	usedStructAppend bool
 	curVisited string
 }
 
@@ -343,7 +346,7 @@ func (u *Unit) execInstr(fr *frame, st *State, ins ssa.Instruction) {
 		}
 		u.closureN++
 		cv.ID = u.ctx.Const(fmt.Sprintf("closure:%s#%d", fn.Name(), u.closureN), SInt)
-		u.ctx.Assert(Neq(cv.ID, TNil), "closure-nonnil")
+		u.ctx.Assert(Eq(cv.ID, IntLit(int64(-1000000-u.closureN))), "closure-identity")
 		u.closures[cv.ID.S] = cv
 		st.Env[x] = cv
 	case *ssa.Call:
@@ -641,10 +644,62 @@ func (u *Unit) execBinOp(st *State, op token.Token, a, b Value, opndT, resT type
 // bit decomposition via uninterpreted functions with defining axioms on
 // literals; generic operands stay uninterpreted.
 func (u *Unit) bitop(op token.Token, a, b Term) Term {
+	// exact encoding when one operand is a non-negative constant mask
+	if m, ok := smallLit(b); ok && m >= 0 {
+		return bitopConst(op, a, m, false)
+	}
+	if m, ok := smallLit(a); ok && m >= 0 {
+		return bitopConst(op, b, m, true)
+	}
 	name := map[token.Token]string{token.AND: "bit_and", token.OR: "bit_or", token.XOR: "bit_xor", token.AND_NOT: "bit_andnot"}[op]
 	f := u.ctx.Fun(name, []string{SInt, SInt}, SInt)
-	u.note("bitwise operator " + name + " uninterpreted")
+	u.note("bitwise operator " + name + " on two non-constant operands is uninterpreted")
 	return app(f, SInt, a, b)
+}
+
+// andConst: x & M for a constant M >= 0 as a sum over the set bits of M
+// (floor div/mod: exact for two's-complement semantics on all integers).
+func andConst(x Term, m int64) Term {
+	var parts []Term
+	for k := uint(0); k < 62; k++ {
+		b := int64(1) << k
+		if m&b == 0 {
+			continue
+		}
+		bit := app("mod", SInt, app("div", SInt, x, IntLit(b)), IntLit(2))
+		if b == 1 {
+			bit = app("mod", SInt, x, IntLit(2))
+			parts = append(parts, bit)
+		} else {
+			parts = append(parts, app("*", SInt, IntLit(b), bit))
+		}
+	}
+	if len(parts) == 0 {
+		return TZero
+	}
+	if len(parts) == 1 {
+		return parts[0]
+	}
+	return app("+", SInt, parts...)
+}
+
+func bitopConst(op token.Token, x Term, m int64, constOnLeft bool) Term {
+	and := andConst(x, m)
+	M := IntLit(m)
+	switch op {
+	case token.AND:
+		return and
+	case token.OR:
+		return Arith("-", Arith("+", x, M), and)
+	case token.XOR:
+		return Arith("-", Arith("+", x, M), Arith("*", IntLit(2), and))
+	case token.AND_NOT:
+		if constOnLeft { // M &^ x = M - (x & M)
+			return Arith("-", M, and)
+		}
+		return Arith("-", x, and)
+	}
+	return and
 }
 
 func smallLit(t Term) (int64, bool) {
@@ -745,9 +800,12 @@ func (u *Unit) makeInterface(v Value, from, to types.Type) Value {
 	tag := u.ctx.Tag("type:" + typeKey(from))
 	k := payloadKind(from)
 	if k == "?" {
-		// struct / slice payload: opaque box that still carries its dynamic type
+		// struct / slice payload: a box that carries its dynamic type; struct payload fields are functions of the box
 		b := u.ctx.Fresh("box", SInt)
-		u.ctx.Assert(And(Eq(app("itag", SInt, b), tag), Neq(b, TNil)), "box")
+		u.ctx.Assert(And(Eq(app("itag", SInt, b), tag), Neq(b, TNil), Eq(app("objof", SInt, b), TZero)), "box")
+		if sv, ok := v.(*StructV); ok && isStructType(from) && countFlatFields(from, 0) <= 60 {
+			u.boxStruct(b, typeKey(from), sv, 0)
+		}
 		return Sc{b, to}
 	}
 	sc := u.asSc(v, from)
@@ -772,7 +830,10 @@ func (u *Unit) execTypeAssert(st *State, x *ssa.TypeAssert) Value {
 		tag := u.ctx.Tag("type:" + typeKey(at))
 		ok = And(Neq(v.T, TNil), Eq(app("itag", SInt, v.T), tag))
 		k := payloadKind(at)
-		if k == "?" {
+		if k == "?" && isStructType(at) {
+			bt := v.T
+			res = &StructV{Typ: at, Box: &bt, BoxKey: typeKey(at)}
+		} else if k == "?" {
 			res = u.freshValue(at, "unbox")
 		} else {
 			res = Sc{app("ipay"+k, scalarSort(at), v.T), at}
@@ -955,7 +1016,7 @@ func (u *Unit) execMakeSlice(st *State, x *ssa.MakeSlice) Value {
 		arr := u.heapGet(st, fam, ArrSort(SInt, s))
 		n2 := u.ctx.Fresh("H", arr.Sort)
 		z := u.zeroTerm(s)
-		u.ctx.Assert(Implies(st.G, Term{fmt.Sprintf("(forall ((p Int)) (! (= (select %s p) (ite (= (ea_base p) %s) %s (select %s p))) :pattern ((select %s p))))", n2.S, r.S, z.S, arr.S, n2.S), SBool}), "makeslice-zero")
+		u.ctx.Assert(Implies(st.G, Term{fmt.Sprintf("(forall ((p Int)) (! (= (select %s p) (ite (and (= (ea_base p) %s) (= p (ea (ea_base p) (ea_idx p)))) %s (select %s p))) :pattern ((select %s p))))", n2.S, r.S, z.S, arr.S, n2.S), SBool}), "makeslice-zero")
 		st.Heap[fam] = n2
 		u.famSort[fam] = arr.Sort
 		u.written[fam] = true
